@@ -378,7 +378,8 @@ func (s cmap6or10) Lookup(r rune) (GID, bool) {
 	if r < s.firstCode {
 		return 0, false
 	}
-	c := int(r - s.firstCode)
+	// computed as an int: a format 10 start code >= 0x80000000 is a negative rune
+	c := int(r) - int(s.firstCode)
 	if c >= len(s.entries) {
 		return 0, false
 	}
